@@ -9,9 +9,9 @@ Layout (everything sized from the drawn demands so that levels traverse their ra
                               T1    T2 ...               (each tank: 1-3 links of kind pipe / CV pipe in or out /
                                                           pump in or out, cylindrical or volume curve)
 
-* feed pump: 1-point or 3-point head curve (shut-off head known in closed form) or power pump; design point chosen so
-  that the pump fills the tanks at mean demand and loses against the peaks of the pattern; with a small lift the
-  shut-off head lies inside the tank's range (pump shut-off rule becomes active)
+* feed pump: 1-point or 3-point head curve (shut-off head known in closed form; power pumps never converged in the
+  probes and are not drawn); the feed enters J1 or, 1 case in 8, the first tank; design point chosen so that the pump
+  fills the tanks at mean demand and loses against the peaks of the pattern; with a small lift the shut-off head lies inside the tank's range (pump shut-off rule becomes active)
 * feed pipe: high reservoir, pipe length computed from Hazen-Williams so that the tanks fill at low demand and drain
   at peak demand
 * tank area from a drawn traverse time (1-8 h at mean demand); init level anywhere incl. exactly at a limit
@@ -46,7 +46,7 @@ def scenario(draw, feat=None):
     pat_step = draw(st.sampled_from([1800, 3600, 3600, 7200]))
     pdd = draw(st.integers(0, 99)) < int(100 * feat.get('pdd', 0.15))
     o = {'duration': dur, 'hyd': hyd, 'pat': pat_step, 'rep': 'ALL',
-         'rule': draw(st.sampled_from([300, 360, 3600])),
+         'rule': draw(st.sampled_from([60, 300, 360, 3600])),
          'pattern_start': draw(st.sampled_from([0, 0, 0, 3600, 5400])),
          'start_clocktime': 0, 'dm': 1.0,
          'demand_model': 'PDD' if pdd else 'DD', 'pmin': 0.0, 'preq': 10.0 if pdd else 0.07, 'pexp': 0.5,
@@ -178,7 +178,13 @@ def scenario(draw, feat=None):
                                                draw(st.sampled_from([2.0, 4.0, 8.0])),
                                                status=draw(st.sampled_from(['OPEN', 'OPEN', 'CLOSED']))))
 
-    # ---- feed
+    if nt >= 2 and draw(st.integers(0, 3)) == 0:
+        a, b = ('T1', 'T2') if draw(st.booleans()) else ('T2', 'T1')
+        spec['pipes'].append(pipe(a, b, draw(st.sampled_from([100.0, 300.0, 800.0])), draw(st.sampled_from([0.1, 0.15, 0.2])),
+                                  cv=draw(st.integers(0, 3)) == 0))
+
+    # ---- feed (into J1, or in one case out of eight directly into the first tank)
+    entry = 'T1' if draw(st.integers(0, 7)) == 0 else jn[0]
     t1 = spec['tanks'][0]
     hlow, hhigh = t1['elev'] + t1['min'], t1['elev'] + t1['max']
     fk = draw(st.sampled_from(['pump1', 'pump1', 'pump_small_lift', 'pump_small_lift', 'pipe', 'pipe']))
@@ -188,14 +194,7 @@ def scenario(draw, feat=None):
         hr = r(href - lift, 1)
         qd = r(max(qm * draw(st.sampled_from([0.8, 1.2, 1.6, 2.5])), 0.6 * qp), 5)   # 2*qd = largest pump flow > peak demand
         spec['reservoirs'].append({'name': 'R1', 'head': hr, 'pat': None})
-        spec['pumps'].append(head_pump('R1', jn[0], qd, lift, status=fstat))
-    elif fk == 'power':
-        hr = r(href - draw(st.sampled_from([20.0, 40.0])), 1)
-        spec['reservoirs'].append({'name': 'R1', 'head': hr, 'pat': None})
-        power = r(9810.0 * max(qm * draw(st.sampled_from([1.2, 1.6, 2.5])), 0.8 * qp) * (href - hr), 1)
-        spec['pumps'].append({'name': lname('PU'), 'a': 'R1', 'b': jn[0], 'type': 'POWER', 'power': max(power, 50.0),
-                              'curve': None, 'status': 'OPEN'})
-        fstat = 'OPEN'
+        spec['pumps'].append(head_pump('R1', entry, qd, lift, status=fstat))
     else:
         margin = draw(st.sampled_from([-1.0, 0.5, 2.0, 5.0]))
         hr = r(hhigh + margin, 1)
@@ -205,8 +204,8 @@ def scenario(draw, feat=None):
         length = (hr - href) / (10.667 * qe ** 1.852) * c ** 1.852 * dm ** 4.871
         length = min(20000.0, max(10.0, length))
         spec['reservoirs'].append({'name': 'R1', 'head': hr, 'pat': None})
-        spec['pipes'].append(pipe('R1', jn[0], length, dm, c=c, status=fstat, cv=draw(st.integers(0, 3)) == 0))
-    spec['meta'] = {'qm': r(qm, 6), 'qp': r(qp, 6), 'href': href, 'feed': fk}
+        spec['pipes'].append(pipe('R1', entry, length, dm, c=c, status=fstat, cv=draw(st.integers(0, 3)) == 0))
+    spec['meta'] = {'qm': r(qm, 6), 'qp': r(qp, 6), 'href': href, 'feed': fk, 'entry': entry}
     spec['controls'] = draw(controls(spec, feat))
     return spec
 
@@ -236,15 +235,19 @@ def controls(draw, spec, feat):
         return r(t['min'] + f * (t['max'] - t['min']), 3)
 
     def tank_cond(t, up, thr):
-        attr = 'level'
-        if t.get('vol_curve') is None:
-            attr = draw(st.sampled_from(['level', 'level', 'level', 'pressure', 'head']))
+        # ('pressure' on a volume-curve tank is documented as not implemented in TankLevelCondition)
+        attr = draw(st.sampled_from(['level', 'level', 'level', 'pressure', 'head'] if t.get('vol_curve') is None
+                                    else ['level', 'level', 'head']))
         return {'kind': 'cond', 'node': t['name'], 'nattr': attr, 'op': draw(st.sampled_from(OPS_UP if up else OPS_DN)),
                 'thr': r(thr + t['elev'], 3) if attr == 'head' else thr}
 
     def press_cond(up):
         j = draw(st.sampled_from(spec['junctions']))
-        thr = r(href - j['elev'] + draw(st.sampled_from([-20.0, -10.0, -4.0, -1.5, 0.0, 1.5, 4.0, 10.0])), 2)
+        if draw(st.integers(0, 3)) == 0:
+            d = draw(st.sampled_from([-20.0, -10.0, 10.0]))
+        else:
+            d = draw(st.integers(-40, 40)) * 0.1       # inside the band swept by the tank heads
+        thr = r(href - j['elev'] + d, 2)
         return {'kind': 'cond', 'node': j['name'], 'nattr': 'pressure', 'op': draw(st.sampled_from(OPS_UP if up else OPS_DN)),
                 'thr': thr}
 
@@ -376,7 +379,7 @@ QTOL = 2.83168e-6    # wntr.sim.core.WNTRSimulator._Qtol (EPANET Qtol, 1e-4 cfs)
 
 
 def spec_tags(spec):
-    tags = ['feed:' + spec.get('meta', {}).get('feed', '?'), 'hyd:%d' % spec['opts']['hyd'],
+    tags = ['feed:' + spec.get('meta', {}).get('feed', '?'), 'feed_into:' + ('tank' if spec.get('meta', {}).get('entry') == 'T1' else 'junction'), 'hyd:%d' % spec['opts']['hyd'],
             'dur_h:%d' % (spec['opts']['duration'] // 3600), 'mode:' + spec['opts']['demand_model'],
             'ntanks:%d' % len(spec['tanks'])]
     tn = set(t['name'] for t in spec['tanks'])
